@@ -1,3 +1,68 @@
-import NettyVerif.Proofs.Chan
+import NettyVerif.Proofs.ChanClose
+/-! # C05 — Channel lifecycle (Close election part)
+
+Over the Chan LTS, for any number of concurrent Close calls (each is a `closeCas` action; the
+losers return at once) and every interleaving with writers and senders. -/
 namespace NettyVerif.C05
+open NettyVerif.Chan
+variable {α : Type}
+
+def init (sync : Bool) (cap : Nat) (untilW : Bool) : St α := { sync := sync, cap := cap, untilW := untilW }
+
+/-- the transport is closed at most once, and exactly once when the closed flag is set and the
+    winning Close has returned; then the close error is stored and the channel context cancelled -/
+theorem C05_close_once (sync : Bool) (cap : Nat) (untilW : Bool) (acts : List (Act α)) (s : St α)
+    (hr : run (init sync cap untilW) acts = some s) :
+    s.closeCount ≤ 1 ∧
+    (s.closed = true → s.closer = none → s.closeCount = 1 ∧ s.trClosed = true ∧ s.ctxDone = true ∧ s.closeErrSet = true) ∧
+    (s.closed = false → s.closeCount = 0 ∧ s.trClosed = false ∧ s.ctxDone = false) := by
+  obtain ⟨_, hci⟩ := invs_run acts _ s (inv_init sync cap untilW) (cinv_init sync cap untilW) hr
+  have hcnt := hci.cnt
+  refine ⟨by rw [hcnt]; split <;> omega, ?_, ?_⟩
+  · intro h1 h2
+    obtain ⟨a, b, c⟩ := hci.donePh h1 h2
+    exact ⟨by rw [hcnt, b]; rfl, b, c, a⟩
+  · intro h1
+    obtain ⟨_, b, c, _, e⟩ := hci.open_ h1
+    exact ⟨e, b, c⟩
+
+/-- at most one Close is ever past the election (the CAS on the closed flag admits a single winner) -/
+theorem C05_single_winner (s s' : St α) (h : step s .closeCas = some s') (hc : s.closed = true) : s' = s := by
+  simp [step, hc] at h; exact h.symm
+
+/-- IsActive is false as soon as any Close call has returned: a Close call returns either as a loser
+    (the flag was already set) or as the winner (which set it), and the flag never resets -/
+theorem C05_closed_after_any_close (s s' : St α) (h : step s .closeCas = some s') : s'.closed = true := by
+  simp only [step] at h
+  split at h
+  · simp at h; subst h; assumption
+  · split at h <;> simp at h
+    subst h; rfl
+
+/-- order of the winner's steps: the close error is stored before the transport is closed, the
+    transport is closed before the context is cancelled -/
+theorem C05_close_order (sync : Bool) (cap : Nat) (untilW : Bool) (acts : List (Act α)) (s : St α)
+    (hr : run (init sync cap untilW) acts = some s) :
+    (s.trClosed = true → s.closeErrSet = true) ∧ (s.ctxDone = true → s.trClosed = true) := by
+  obtain ⟨_, hci⟩ := invs_run acts _ s (inv_init sync cap untilW) (cinv_init sync cap untilW) hr
+  cases hcl : s.closed with
+  | false => obtain ⟨_, b, c, _, _⟩ := hci.open_ hcl; simp [b, c]
+  | true =>
+    cases hc : s.closer with
+    | none => obtain ⟨a, b, c⟩ := hci.donePh hcl hc; simp [a, b]
+    | some pc =>
+      cases pc with
+      | len n => obtain ⟨a, b, c⟩ := hci.waitPh _ hc rfl; simp [a, c]
+      | load n => obtain ⟨a, b, c⟩ := hci.waitPh _ hc rfl; simp [a, c]
+      | sleep n => obtain ⟨a, b, c⟩ := hci.waitPh _ hc rfl; simp [a, c]
+      | setErr => obtain ⟨a, b, c⟩ := hci.waitPh _ hc rfl; simp [a, c]
+      | trClose => obtain ⟨a, b, c⟩ := hci.trPh hc; simp [b, c]
+      | cancel => obtain ⟨a, b, c⟩ := hci.cancelPh hc; simp [a, b]
+      | fire => obtain ⟨a, b, c⟩ := hci.firePh hc; simp [a, b]
+
 end NettyVerif.C05
+
+#print axioms NettyVerif.C05.C05_close_once
+#print axioms NettyVerif.C05.C05_single_winner
+#print axioms NettyVerif.C05.C05_closed_after_any_close
+#print axioms NettyVerif.C05.C05_close_order
